@@ -183,6 +183,7 @@ Mapped ==
     \* ---------------- the peer (announced by the harness before the bytes are written) ----------------
     [] e.ev = "PeerSent" /\ e.a = OpPong -> SawOut("ping") /\ PeerAct("pong", "pong")
     [] e.ev = "PeerSent" /\ e.a \in {1, 2} -> PeerAct("data", "data")
+    [] e.ev = "PeerSent" /\ e.a = OpPing -> PeerAct("ping", "ping")
     [] e.ev = "PeerSent" /\ e.a = OpClose -> PeerAct("close", "close") \/ (SawOut("close") /\ PeerAct("echo", "close"))
     [] OTHER -> Stutter
 
